@@ -62,7 +62,7 @@ class Harness:
                  assumptions=(), witness=True, tv_cases=200, known=(), flags=(), expect_fail_props=(), replayable=True, depth=None):
         s.name = name; s.unit = unit; s.unwind = unwind; s.unwindset = list(unwindset); s.backend = backend; s.timeout = timeout
         s.mem_gb = mem_gb; s.defines = list(defines); s.bounds = bounds; s.claims = claims; s.assumptions = list(assumptions)
-        s.witness = witness; s.tv_cases = tv_cases; s.known = list(known); s.flags = list(flags); s.replayable = replayable; s.label = None
+        s.witness = witness; s.tv_cases = tv_cases; s.known = list(known); s.flags = list(flags); s.replayable = replayable; s.label = None; s.replay_on = 'real'
 
 def known_findings(prop):
     """returns (known: {key: text}, fixed: [text])"""
@@ -96,15 +96,32 @@ class Check:
         if not s.keep: shutil.rmtree(s.dir, ignore_errors=True)
         else: s.log('scratch kept at', s.dir)
 
+    def repo_src(s, rel):
+        """path of a repository source; src/expr-info.cc (and nl-opcodes.h) are build products of src/gen-expr-info.cc: regenerate them
+        from the current tree exactly as the CMake rule does, so a stale or missing copy in the source directory is never used"""
+        if rel != 'src/expr-info.cc': return os.path.join(REPO, rel)
+        with s.lock:
+            gd = os.path.join(s.dir, 'gen_src'); out = os.path.join(gd, 'expr-info.cc')
+            if os.path.exists(out): return out
+            os.makedirs(os.path.join(gd, 'mp'), exist_ok=True)
+            rc, o, e, dt = run(['g++', '-std=c++17', '-O0', '-w'] + include_flags() + [os.path.join(REPO, x) for x in ('src/gen-expr-info.cc', 'src/format.cc', 'src/posix.cc')] + ['-o', os.path.join(gd, 'gei')], timeout=300)
+            if rc == 0: rc, o, e, dt = run([os.path.join(gd, 'gei'), out, os.path.join(gd, 'mp', 'nl-opcodes.h')], timeout=60)
+            if rc != 0:
+                s.log('gen-expr-info failed, falling back to the copy in the tree:', e[-300:]); return os.path.join(REPO, rel)
+            return out
+    def gen_inc(s):
+        s.repo_src('src/expr-info.cc')
+        return ['-I' + os.path.join(s.dir, 'gen_src')]
+
     # ---------------- build a unit
     def build_unit(s, u):
         d = os.path.join(s.dir, u.name); os.makedirs(d, exist_ok=True)
         wrap = os.path.join(s.hdir, u.wrap)
         info = {'name': u.name, 'dir': d, 'ok': False}
         s.units[u.name] = info
-        cxx = CLANG_FLAGS + s.defs + include_flags() + ['-I' + s.hdir, '-I' + TOOLS] + u.cxxflags
+        cxx = CLANG_FLAGS + s.defs + s.gen_inc() + include_flags() + ['-I' + s.hdir, '-I' + TOOLS] + u.cxxflags
         lls = []
-        for i, src in enumerate([wrap] + [os.path.join(REPO, x) for x in u.extra_repo_cc]):
+        for i, src in enumerate([wrap] + [s.repo_src(x) for x in u.extra_repo_cc]):
             ll = os.path.join(d, 'm%d.ll' % i)
             rc, out, err, dt = run(['clang++-14'] + cxx + ['-S', '-emit-llvm', src, '-o', ll], timeout=600)
             if rc != 0:
@@ -159,9 +176,9 @@ class Check:
         else:
             san = ['-fsanitize=address,undefined', '-fno-omit-frame-pointer'] if u.san else []
             objs = []
-            for i, src in enumerate([os.path.join(s.hdir, u.wrap)] + [os.path.join(REPO, x) for x in u.extra_repo_cc]):
+            for i, src in enumerate([os.path.join(s.hdir, u.wrap)] + [s.repo_src(x) for x in u.extra_repo_cc]):
                 o = os.path.join(d, 'real%d.o' % i)
-                cmd = ['g++', '-std=c++17', '-O0', '-g', '-w', '-fno-strict-aliasing'] + san + s.defs + include_flags() + ['-I' + s.hdir, '-I' + TOOLS] + u.cxxflags + list(getattr(u, 'real_cxxflags', [])) + ['-DVF_REAL_BUILD', '-c', src, '-o', o]
+                cmd = ['g++', '-std=c++17', '-O0', '-g', '-w', '-fno-strict-aliasing'] + san + s.defs + s.gen_inc() + include_flags() + ['-I' + s.hdir, '-I' + TOOLS] + u.cxxflags + list(getattr(u, 'real_cxxflags', [])) + ['-DVF_REAL_BUILD', '-c', src, '-o', o]
                 rc, out, err, dt = run(cmd, timeout=900)
                 if rc != 0: s.log('real build failed:', err[-1500:]); return None
                 objs.append(o)
@@ -290,18 +307,39 @@ class Check:
             if rc != 0: s.log('real relink failed', err[-500:]); return None
         return exe
 
+    def gen_for(s, info, h):
+        """native build of the TRANSLATED code with this harness instance's -D defines"""
+        u = info['unit']; d = info['dir']
+        defs = list(h.defines) + ['KF_' + k for k in h.known if k in s.known]
+        tag = hashlib.sha1(' '.join(defs).encode()).hexdigest()[:10]
+        exe = os.path.join(d, 'native_gen_' + tag)
+        with s.lock:
+            if os.path.exists(exe): return exe
+            inc = ['-I' + TOOLS, '-I' + d, '-I' + s.hdir]
+            if not os.path.exists(os.path.join(d, 'gen.o')):
+                rc, out, err, dt = run(['gcc', '-O1', '-w', '-DVF_NATIVE', '-DVF_GEN', '-fno-strict-aliasing'] + inc + ['-c', os.path.join(d, 'gen.c'), '-o', os.path.join(d, 'gen.o')], timeout=900)
+                if rc != 0: s.log('gen.o build failed', err[-500:]); return None
+            cmd = ['gcc', '-O1', '-w', '-DVF_NATIVE', '-DVF_GEN', '-fno-strict-aliasing'] + ['-D' + x for x in u.cdefs + defs] + inc + [os.path.join(d, 'gen.o'), os.path.join(TOOLS, 'vf_rt.c'), os.path.join(TOOLS, 'vf_libc.c'),
+                   os.path.join(TOOLS, 'vf_native.c'), os.path.join(d, 'table.c'), os.path.join(s.hdir, u.harness)] + [os.path.join(s.hdir, x) for x in u.extra_c] + [os.path.join(TOOLS, x) for x in u.tool_c] + ['-lm', '-o', exe]
+            rc, out, err, dt = run(cmd, timeout=600)
+            if rc != 0: s.log('native gen build failed:', err[-1500:]); return None
+        return exe
+
     def replay(s, info, h, feed, expect_desc):
         """replay on the REAL build; returns (confirmed, detail)"""
-        r = s.real_for(info, h)
-        if not r: return None, 'real build failed'
-        rd = os.path.join(VERIF, 'replays', s.prop); os.makedirs(rd, exist_ok=True)
+        if getattr(h, 'replay_on', 'real') == 'gen':
+            r = s.gen_for(info, h)       # environment of this harness is stubbed: replay on the translated code (stated in the evidence)
+        else:
+            r = s.real_for(info, h)
+        if not r: return None, 'replay build failed'
+        rd = os.path.join(os.environ.get('VERIF_REPLAY_DIR') or os.path.join(VERIF, 'replays'), s.prop); os.makedirs(rd, exist_ok=True)
         key = hashlib.sha1((h.name + expect_desc + repr(feed)).encode()).hexdigest()[:10]
         path = os.path.join(rd, '%s_%s.json' % (h.name, key))
         json.dump({'property': s.prop, 'unit': h.unit, 'harness': h.name, 'feed': feed, 'failed_property': expect_desc}, open(path, 'w'), indent=1)
         fpath = os.path.join(info['dir'], 'feed_%s.txt' % key); open(fpath, 'w').write(' '.join(map(str, feed)))
         env = dict(os.environ, ASAN_OPTIONS='detect_leaks=0:halt_on_error=0', UBSAN_OPTIONS='print_stacktrace=1')
         rc, out, err, dt = run([r, h.name, 'replay', fpath], timeout=120, env=env)
-        confirmed = ('ASSERT-FAILED' in out) or bool(re.search(r'runtime error|AddressSanitizer|terminate called', err)) or (isinstance(rc, int) and rc < 0)
+        confirmed = ('ASSERT-FAILED' in out) or (getattr(h, 'replay_on', 'real') == 'gen' and 'CHK-FAILED' in out) or bool(re.search(r'runtime error|AddressSanitizer|terminate called', err)) or (isinstance(rc, int) and rc < 0)
         detail = (out[-600:] + '\n' + '\n'.join(l for l in err.split('\n') if re.search(r'runtime error|Sanitizer|terminate|SUMMARY', l))[:1200])
         return (path if confirmed else False), detail
 
@@ -385,8 +423,9 @@ class Check:
         ev = {'property_id': s.prop, 'tier': s.tier, 'seed': s.seed, 'level': s.level, 'coverage': cov,
               'assumptions': sorted(set(a for r in rs for a in (r.get('assumptions') or []))) + [level_text] if level_text else [],
               'wall_s': round(time.time() - s.t0, 1), 'violations': len(s.violations)}
-        os.makedirs(os.path.join(VERIF, 'evidence'), exist_ok=True)
-        json.dump(ev, open(os.path.join(VERIF, 'evidence', s.prop + '.json'), 'w'), indent=1, default=str)
+        evd = os.environ.get('VERIF_EVIDENCE_DIR') or os.path.join(VERIF, 'evidence')
+        os.makedirs(evd, exist_ok=True)
+        json.dump(ev, open(os.path.join(evd, s.prop + '.json'), 'w'), indent=1, default=str)
         for k, t in s.known.items(): print('KNOWN-FINDING: property=%s %s %s' % (s.prop, k, t))
         for r in bad: print('NOT-DECIDED: property=%s harness=%s status=%s' % (s.prop, r['harness'], r['status']))
         for u in s.undecided: print('UNDECIDED: property=%s %s' % (s.prop, u))
